@@ -236,8 +236,11 @@ def session(req):
                         porcelain.add(r)
                         step["applied"] = True
                     elif e[0] == "unstage":
-                        porcelain.unstage(r, [os.path.join(wt.encode(), bytes.fromhex(e[1]))]) if hasattr(porcelain, "unstage") else None
-                        step["applied"] = hasattr(porcelain, "unstage")
+                        if bytes.fromhex(e[1]) in r.open_index():
+                            r.get_worktree().unstage([os.fsdecode(bytes.fromhex(e[1]))])      # (what porcelain.reset_file / restore --staged run)
+                            step["applied"] = True
+                        else:
+                            step["applied"] = False
                     elif e[0] == "rm-cached":
                         if bytes.fromhex(e[1]) in r.open_index():
                             porcelain.remove(r, paths=[os.path.join(wt.encode(), bytes.fromhex(e[1]))], cached=True)
